@@ -2,6 +2,10 @@
 """Regenerate the seeded-change table of DESIGN.md section 10 from /verif/seeded/*/meta.json."""
 import json, glob, os, re
 NOTES = {
+ "C07b-put-returns-share": "missed at first: store verbs were never placed in the precur context; precur/renter/rexit placements added to the pairwise family",
+ "C30b-length-before-chunked": "missed at first: no 204/304/1xx/HEAD responses; bodiless kinds added (which also exposed the HEAD body defect, now fixed)",
+ "C46b-wrap2-half-turn": "missed at first by C46 (C43 caught it): no input/set point exactly half a turn apart; added",
+
  "C21b-clone-drops-nact": "missed at first by C21/C12/C08: no moot frame carried a negated `let` guard; clone-guards family added to C12/C07",
  "C19b-gulp-drops-falsy": "missed at first: deck ops never queued falsy non-None elements; added with type-strict comparison",
  "C17b-int-base0": "missed at first: no leading-zero decimal whose hex reading differs; 010/012/0100... and 0b/0o tokens added",
